@@ -263,4 +263,5 @@ Proof.
     unfold anchor_get. apply bal_act. intro r. destruct r; try apply bal_ret. apply bal_copy_body.
   - (* Len *) unfold m_len. apply locked_one_cs; [apply CM; [simpl; auto 20|discriminate]|]. bal_tac.
   - (* Contains *) unfold m_contains. apply locked_one_cs; [apply CM; [simpl; auto 20|discriminate]|]. bal_tac.
+  - (* Snapshot *) unfold m_snapshot. apply locked_one_cs; [apply CM; [destruct w; simpl; auto 30|destruct w; discriminate]|]. bal_tac.
 Qed.
